@@ -262,6 +262,8 @@ def _expand(path, meta):
             if t["kw"] == "struct":
                 # D4: private items/fields become pub (visibility has no run-time meaning; single-file build)
                 txt = re.sub(r"(?m)^(\s*)(?!pub\b)((?:r#)?[a-z_]\w*\s*:)", r"\1pub \2", txt)
+            if t["kw"] in ("const", "static"):
+                txt = re.sub(r":\s*&\s*str\b", ": &'static str", txt)   # Verus turns consts into functions: elided lifetime made explicit
             if not txt.lstrip().startswith("pub"):
                 txt = "pub " + txt.lstrip()
             meta["types"].append(dict(file=rel, item=name, sha256=hashlib.sha256(raw.encode()).hexdigest(),
